@@ -92,3 +92,22 @@ def array_fills(an, buf):
         else:
             others.append(ev)
     return fills, others
+
+
+def root_local(an, local, reborrows=False):
+    """follow `x = move y` definitions (and, optionally, `x = &*y` reborrows of
+    a reference) back to the local that was created first"""
+    cur = local
+    for _ in range(20):
+        d = an.unique_def(cur)
+        if d is None:
+            return cur
+        rv = getattr(d[2], "rv", None)
+        if rv is not None and rv.kind == "use" and rv.ops[0].kind in ("copy", "move") and rv.ops[0].place.is_local():
+            cur = rv.ops[0].place.local
+            continue
+        if reborrows and rv is not None and rv.kind == "ref" and rv.place.proj == ["deref"]:
+            cur = rv.place.local
+            continue
+        return cur
+    return cur
